@@ -237,8 +237,8 @@ var ascPool = [][]byte{{0x12, 0x10}, {0x11, 0x90}, nil, {0x00, 0x00}, {0xf8}, {0
 func genPipes(c *Ctx, tbl *d.SpsTable) {
 	g := &d.Gen{R: c.Rng, Count: c.Count, Small: true}
 	r := c.Rng
-	nBase := c.Budget(40, 500)
-	perBase := c.Budget(12, 40)
+	nBase := c.Budget(40, 250)
+	perBase := c.Budget(12, 30)
 	var bases []*pcase
 	for i := 0; i < nBase; i++ {
 		bases = append(bases, &pcase{c: baseCase(g, c, i), asc: ascPool[0]})
@@ -451,7 +451,8 @@ func runPipeBatch(c *Ctx, tbl *d.SpsTable, ps []*pcase) {
 		comparePipe(c, p)
 		ok, ko := tbl.Split(p.c.Codec, cands[i])
 		na := ""
-		if p.c.HasTag("inband-ps") {
+		if p.c.HasTag("inband-ps") || !p.c.WK {
+			// the FLV muxer drops audio frames that arrive before the video parameter sets are known
 			na = " noaudio=1"
 		}
 		// bytes only: RTCP garbage that happens to look like a sender report legitimately re-bases the clock
